@@ -1,6 +1,7 @@
 package gen
 
 import (
+	"fmt"
 	"pgregory.net/rapid"
 
 	"verif/internal/ast"
@@ -88,7 +89,30 @@ func Rewrite(t *rapid.T, cfg Cfg) *ast.Node {
 	s := &state{cfg: cfg}
 	var piece func(d int) *ast.Node
 	piece = func(d int) *ast.Node {
-		switch rapid.IntRange(0, 13).Draw(t, "rwpiece") {
+		switch rapid.IntRange(0, 14).Draw(t, "rwpiece") {
+		case 14:
+			// balancing group whose body ends in a choice that decides whether the popped group holds a
+			// capture: leaving the group can fail and backtrack into the body, so the body is not "at the end"
+			if !s.cfg.Full {
+				return s.rwSet(t)
+			}
+			inner := ast.Group(ast.GCap, s.rwSet(t))
+			var body *ast.Node
+			switch rapid.IntRange(0, 4).Draw(t, "rwbal") {
+			case 0:
+				body = ast.Alt(ast.Empty(), ast.Seq(inner, s.rwStr(t, 0, 1)))
+			case 1:
+				body = ast.Alt(s.rwStr(t, 1, 1), ast.Seq(inner, s.rwStr(t, 0, 1)))
+			case 2:
+				body = ast.Quant(inner, 0, -1, true)
+			case 3:
+				body = ast.Seq(s.rwStr(t, 0, 1), ast.Quant(inner, 0, 1, true))
+			default:
+				body = ast.Seq(s.rwLoop(t), ast.Quant(ast.Group(ast.GNon, ast.Seq(inner, s.rwStr(t, 0, 1))), 0, 1, rapid.Bool().Draw(t, "rwballazy")))
+			}
+			g := ast.Group(ast.GBalance, body)
+			g.S2 = fmt.Sprintf("?%d", rapid.IntRange(0, 3).Draw(t, "rwbalslot"))
+			return g
 		case 0, 1: // loop followed by X
 			return ast.Seq(s.rwLoop(t), piece(d-1))
 		case 2:
